@@ -26,6 +26,13 @@ class RValue(Contract):
         self.dim = dim
         self.label = "DensityEstimation.calculate_R_value_analytically[dim=%d]" % dim
 
+    def model_to_input(self, model):
+        from pyvc import modelparse as mp
+        g = lambda k: mp.tofloat(mp.num(model.get(k, "0")))  # noqa
+        d = self.dim
+        return {"kind": "C16.rvalue", "dim": d, "point_i": [g("pi%d" % k) for k in range(d)], "point_j": [g("pj%d" % k) for k in range(d)],
+                "domain_i": [[g("di_lo%d" % k), g("di_hi%d" % k)] for k in range(d)], "domain_j": [[g("dj_lo%d" % k), g("dj_hi%d" % k)] for k in range(d)]}
+
     def inputs(self, S):
         d = self.dim
         pt = lambda n: Seq("list", [S.real("%s%d" % (n, k)) for k in range(d)])  # noqa
